@@ -37,17 +37,26 @@ def run(ctx):
     ctx.guard_gate('a', MEMBERSHIP, 'number of values == number of path indices',
                    lambda g: g.op in ('Ne', 'Eq') and has(g.a_orig | g.b_orig, 'p#2') and has(g.a_orig | g.b_orig, 'pty:MerkleBatchPath.indices'),
                    {'eq'}, key='batch_path:len-eq')
-    ctx.guard_gate('a', MEMBERSHIP, 'path indices are sorted (compared with their sorted copy)',
-                   lambda g: g.op in ('Ne', 'Eq') and has(g.a_orig | g.b_orig, 'pty:MerkleBatchPath.indices') and
-                   not has(g.a_orig | g.b_orig, 'p#2') and not has(g.a_orig | g.b_orig, 'call:*::len'), {'eq'}, key='batch_path:sorted')
     f = ctx.try_fn('a', MEMBERSHIP)
     if f is not None:
+        # success requires the path indices to be in order: compared with a sorted copy, or tested with `is_sorted()`
+        from engine import track_result, success_reachable
+        p_sorted = (lambda g: g.op in ('Ne', 'Eq') and has(g.a_orig | g.b_orig, 'pty:MerkleBatchPath.indices') and
+                    not has(g.a_orig | g.b_orig, 'p#2') and not has(g.a_orig | g.b_orig, 'call:*::len'))
         sorts = [c for c in f.body.calls() if any(glob_match('*::sort_unstable', n) or glob_match('*::sort', n) for n in c.names())]
-        if sorts:
-            R.ok('a', 'R5', 'verify_leaves_membership_from_batch_path: a sorted copy of the indices is built', '', f.loc())
+        ok_a = bool(sorts) and ctx.quiet_gate(f, p_sorted, {'eq'})[0]
+        iss = [c for c in f.body.calls() if any(glob_match('*::is_sorted', n) or glob_match('*::is_sorted_by*', n) for n in c.names())
+               and has(fn_origins(f, c.args[0], True), 'pty:MerkleBatchPath.indices')]
+        edges = set()
+        for c in iss:
+            edges |= track_result(f.body, c.dest[0], +1).success_edges
+        ok_b = bool(iss) and bool(edges) and not success_reachable(f.body, edges, 'ok')
+        inst_s = 'MerkleTreeBatchCommitment::verify_leaves_membership_from_batch_path: path indices are sorted (success requires it)'
+        if ok_a or ok_b:
+            R.ok('a', 'R6', inst_s, 'compared with a sorted copy' if ok_a else 'is_sorted() gates success', f.loc())
         else:
-            R.violation('a', 'R5', 'verify_leaves_membership_from_batch_path: a sorted copy of the indices is built',
-                        'batch_path:sort-call', 'no sort call', f.loc())
+            R.violation('a', 'R6', inst_s, 'batch_path:sorted', 'sort calls %d with an equality guard on the indices gating success: %s; is_sorted() sites %d gating success: %s'
+                        % (len(sorts), ok_a, len(iss), ok_b), f.loc())
         # ---- (b)
         body = f.body
         digs = [c for c in body.calls() if any(glob_match('*digest::*::digest', n) or glob_match('*Digest*::digest', n) for n in c.names())]
